@@ -3,152 +3,119 @@
 What is decided is only what is visible in the shape of the code: every routine is a composition of library quantile / tail functions, and
 the property *defines* each result by such a composition ("the one-sided factor is the non-central-t quantile scaled by root n", "the two-sided
 factor solves its documented coverage equation", "rank / confidence / coverage / sample size are mutually consistent").  The rules compare the
-composition extracted from the source (names resolved through the module's imports, temporaries substituted, keyword arguments placed) with
-that definition, the Newton iteration with the derivative of its own residual, and the four arms of ``order_stats`` with each other.  Values of
-the special functions, monotonicity and limits are not decided.
+composition extracted from the source with that definition, the Newton iteration with the derivative of its own residual, and the four arms of
+``order_stats`` with each other.  Values of the special functions, monotonicity and limits are not decided.
+
+Everything is decided on *values* (verifier/c20_flow.py): names are resolved through the module's imports, temporaries and module constants are
+substituted, keyword arguments are placed by the scipy signature, module-level helpers / nested functions / closures / lambdas are followed, the
+``which`` dispatch is resolved by evaluating the function under ``which == 'x'`` (any chain order, early returns), the element-wise application over
+``np.broadcast`` is one construct in all its spellings, the Newton loop is found by its carried iterate and the bracket rule reads sign tests off
+the value of a test, not its spelling.
 """
 from __future__ import annotations
 
 import ast
+from fractions import Fraction
 
 from . import e2_formula as F
+from .c20_flow import (RELS, STATS, Bracket, Ev, World, const_value, enumerate_paths, flip, fn_atoms, literals, opaque_calls, peel, rat, resolve,
+                       same, symbols, symname)
 from .core import AnchorError, Unsupported
-from .e1_srcmodel import dotted, walk_no_nested
-from .e2_eval import Evaluator, is_unknown, need
-
-STATS = "pyyeti/stats.py"
-
-# positional signature of the scipy callables the module uses (shape parameters after the quantile / count argument)
-SIG = {
-    "scipy.stats.norm.ppf": ("q",), "scipy.stats.norm.cdf": ("x",), "scipy.stats.norm.isf": ("q",), "scipy.stats.norm.sf": ("x",),
-    "scipy.stats.nct.ppf": ("q", "df", "nc"), "scipy.stats.nct.isf": ("q", "df", "nc"),
-    "scipy.stats.chi2.ppf": ("q", "df"), "scipy.stats.chi2.isf": ("q", "df"),
-    "scipy.stats.binom.sf": ("k", "n", "p"), "scipy.stats.binom.cdf": ("k", "n", "p"), "scipy.stats.binom.ppf": ("q", "n", "p"),
-    "scipy.stats.binom.isf": ("q", "n", "p"),
-    "scipy.special.betainc": ("a", "b", "x"),
-}
+from .e2_eval import _assigned_names, is_unknown, need
+from .sem import place, unfn
 
 
-def imports(mod):
-    tab = {}
-    for st in mod.tree.body:
-        if isinstance(st, ast.Import):
-            for a in st.names:
-                tab[a.asname or a.name.split(".")[0]] = a.name if a.asname else a.name.split(".")[0]
-        elif isinstance(st, ast.ImportFrom) and st.module:
-            for a in st.names:
-                tab[a.asname or a.name] = f"{st.module}.{a.name}"
-    return tab
+def _sig(fn):
+    return [a.arg for a in fn.args.posonlyargs + fn.args.args]
 
 
-def resolve(d, tab):
-    if d is None:
-        return None
-    head, _, rest = d.partition(".")
-    full = tab.get(head)
-    if full is None:
-        return d
-    return full + ("." + rest if rest else "")
+def _returning(ctx, W, fn, env, what):
+    paths = [q for q in enumerate_paths(W, lambda: _run(W, fn, env)) if q.returns]
+    if not paths:
+        raise AnchorError(f"{what}: return")
+    return paths
 
 
-def lib_call(tab, extra=None):
-    """call hook: scipy distribution functions become opaque applications in a canonical form (sf -> 1 - cdf, isf(q) -> ppf(1 - q),
-    the regularised incomplete beta function with integer-shaped arguments -> the binomial cdf it equals)"""
-
-    def hook(node, ev):
-        d = resolve(dotted(node.func), tab)
-        if extra is not None:
-            r = extra(node, ev, d)
-            if r is not NotImplemented:
-                return r
-        if d in ("numpy.asarray", "numpy.atleast_1d", "float", "int"):
-            return ev.ev(node.args[0])
-        if d in ("numpy.sqrt", "math.sqrt"):
-            return F.sqrt(need(ev.ev(node.args[0])))
-        if d in ("numpy.exp", "math.exp"):
-            return F.exp(need(ev.ev(node.args[0])))
-        if d not in SIG:
-            return NotImplemented
-        names = SIG[d]
-        vals = {}
-        if len(node.args) > len(names):
-            raise Unsupported(f"{d}: too many positional arguments")
-        for nm, a in zip(names, node.args):
-            vals[nm] = need(ev.ev(a), ast.unparse(a))
-        for kw in node.keywords:
-            if kw.arg not in names or kw.arg in vals:
-                raise Unsupported(f"{d}: keyword {kw.arg}")
-            vals[kw.arg] = need(ev.ev(kw.value), ast.unparse(kw.value))
-        if set(vals) != set(names):
-            raise Unsupported(f"{d}: arguments {sorted(vals)}")
-        dist, meth = d.rsplit(".", 1)
-        dist = dist.rsplit(".", 1)[1] if "." in dist else dist
-        if d == "scipy.special.betainc":
-            # I_x(a, b) = P(X >= a), X ~ Binomial(a + b - 1, x)  =>  1 - I_x(s + 1, n - s) = cdf(s; n, x)
-            return 1 - F.fn("binom.cdf", vals["a"] - 1, vals["a"] + vals["b"] - 1, vals["x"])
-        if meth == "sf":
-            return 1 - F.fn(f"{dist}.cdf", *[vals[n] for n in names])
-        if meth == "isf":
-            return F.fn(f"{dist}.ppf", *[(1 - vals[n]) if n == "q" else vals[n] for n in names])
-        return F.fn(f"{dist}.{meth}", *[vals[n] for n in names])
-
-    return hook
+def _run(W, fn, env):
+    ev = Ev(W, env=dict(env), fnode=fn)
+    ev.run(fn.body)
+    return ev
 
 
-def _ret(ev, fn):
-    if not ev.returns:
-        raise AnchorError(f"{fn.name}: return")
-    v = ev.returns[-1][0]
-    return v, ev.returns[-1][1]
+def _why(v):
+    return v.why if is_unknown(v) else repr(v)
 
 
+# ---------------------------------------------------------------------------------------------------------------------------------
 def r1_ksingle(ctx):
-    mod = ctx.src.mod(STATS)
-    tab = imports(mod)
+    W = World(ctx)
     fn = ctx.src.func(STATS, "ksingle")
     p, c, n = F.sym("p"), F.sym("c"), F.sym("n")
-    ev = Evaluator(env={"p": p, "c": c, "n": n}, src=ctx.src, call=lib_call(tab))
-    ev.run(fn.body)
-    v, st = _ret(ev, fn)
-    if is_unknown(v):
-        ctx.error("ksingle: returned expression", st, v.why)
+    paths = _returning(ctx, W, fn, {"p": p, "c": c, "n": n}, "ksingle")
+    bad = [q for q in paths if not rat(q.value)]
+    if bad:
+        ctx.error("ksingle: returned expression", bad[0].node, _why(bad[0].value))
         return
     want = F.fn("nct.ppf", c, n - 1, F.sqrt(n) * F.fn("norm.ppf", p)) / F.sqrt(n)
-    ok = v.equals(want)
-    ctx.check(ok, "ksingle: k = t'_{c}(n - 1, sqrt(n) z_p) / sqrt(n): the c-quantile of the non-central t distribution with n - 1 degrees of freedom and "
-                  "non-centrality sqrt(n) * (normal p-quantile), divided by sqrt(n)", st, None if ok else {"code": repr(v), "definition": repr(want)})
+    wrong = [q for q in paths if not same(q.value, want)]
+    text = ("ksingle: k = t'_{c}(n - 1, sqrt(n) z_p) / sqrt(n): the c-quantile of the non-central t distribution with n - 1 degrees of freedom and "
+            "non-centrality sqrt(n) * (normal p-quantile), divided by sqrt(n)")
+    if wrong:
+        v = wrong[0].value
+        at = fn_atoms(v, "nct.ppf")
+        inner_ok = len(at) == 1 and same(at[0][0], c) and same(at[0][1], n - 1) and same(at[0][2], F.sqrt(n) * F.fn("norm.ppf", p))
+        if inner_ok and opaque_calls(v):
+            # the quantile itself is the defined one; what is done to it goes through a call the checker has no model of
+            ctx.error(text, wrong[0].node, {"code": repr(v), "not modelled": opaque_calls(v)})
+        else:
+            ctx.fail(text, wrong[0].node, {"code": repr(v), "definition": repr(want)})
+    else:
+        ctx.ok(text, paths[0].node)
     # which argument plays which role (reported separately so that a swap is named)
-    try:
-        a = [x for x in v.n.atoms() | v.d.atoms() if F.atom_desc(x)[0] == "fn" and F.atom_desc(x)[1] == "nct.ppf"]
-    except Exception:  # noqa
-        a = []
-    ctx.check(len(a) == 1, "ksingle: exactly one non-central t quantile is evaluated", st)
-    ok = [q.arg for q in fn.args.args] == ["p", "c", "n"]
+    ok = all(len(fn_atoms(q.value, "nct.ppf")) == 1 for q in paths)
+    ctx.check(ok, "ksingle: exactly one non-central t quantile is evaluated", paths[0].node)
+    ok = _sig(fn) == ["p", "c", "n"]
     ctx.check(ok, "ksingle(p, c, n): coverage, confidence, sample size in the documented order", fn)
 
 
-def _newton(ctx, fn, tab):
-    loops = [s for s in fn.body if isinstance(s, ast.While)]
-    if len(loops) != 1:
-        raise AnchorError("_getr: Newton loop")
-    return loops[0]
+# ---------------------------------------------------------------------------------------------------------------------------------
+def _nnf(v, neg=False):
+    """value of a test -> ('and' | 'or', [..]) | ('any' | 'all', sub) | ('cmp', op, a, b) | ('other', value)"""
+    u = unfn(v) if rat(v) else None
+    if u:
+        name, args = u
+        if all(isinstance(a, F.Rat) for a in args):
+            if name == "not" and len(args) == 1:
+                return _nnf(args[0], not neg)
+            if name in ("bool:And", "bool:Or"):
+                conj = (name == "bool:And") != neg
+                return ("and" if conj else "or", [_nnf(a, neg) for a in args])
+            if name in ("any", "all") and len(args) == 1:
+                return (name if not neg else {"any": "all", "all": "any"}[name], _nnf(args[0], neg))
+            if name.startswith("cmp:") and len(args) == 2:
+                op = name[4:]
+                if neg:
+                    op = {"Lt": "GtE", "LtE": "Gt", "Gt": "LtE", "GtE": "Lt", "Eq": "NotEq", "NotEq": "Eq"}.get(op, "?")
+                return ("cmp", op, args[0], args[1])
+    return ("other", v)
 
 
 def r2_getr(ctx):
-    mod = ctx.src.mod(STATS)
-    tab = imports(mod)
     fn = ctx.src.func(STATS, "_getr")
-    params = [a.arg for a in fn.args.args]
+    params = _sig(fn)
     if len(params) < 2:
         raise AnchorError("_getr(n, prob, tol)")
     S = F.sym("S")                     # S stands for 1/sqrt(n): the formulas are polynomial in S
-    n, prob, r0 = 1 / (S * S), F.sym("prob"), F.sym("r")
-    loop = _newton(ctx, fn, tab)
+    n, prob, tol = 1 / (S * S), F.sym("prob"), F.sym("tol")
     phis = []
 
-    def extra(node, ev, d):
+    def extra(nm, node, ev):
+        d = resolve(nm, ev.W.tab)
         if d == "scipy.stats.norm.cdf" and len(node.args) == 1 and not node.keywords:
             u = need(ev.ev(node.args[0]))
+            for s, u0 in phis:
+                if same(u, u0):
+                    return s
             s = F.sym(f"Phi{len(phis)}")
             phis.append((s, u))
             return s
@@ -157,42 +124,58 @@ def r2_getr(ctx):
             return F.exp(-(u * u) / 2) / F.sqrt(2 * F.sym("pi"))
         return NotImplemented
 
+    W = World(ctx, extra=extra)
+    # the Newton loop: the one loop of the function (while / while True + break / counted for)
+    loops = [s for s in fn.body if isinstance(s, (ast.While, ast.For))]
+    if len(loops) != 1:
+        raise AnchorError("_getr: Newton loop")
+    loop = loops[0]
     env = {params[0]: n, params[1]: prob}
     if len(params) > 2:
-        env[params[2]] = F.sym("tol")
-    ev = Evaluator(env=env, src=ctx.src, call=lib_call(tab, extra))
-    pre = fn.body[:fn.body.index(loop)]
-    ev.run(pre)
-    # inside the loop: the iterate entering the step is whatever name the first statement copies `r` into
-    ev.env_pre = dict(ev.env)
-    # find the update statement  r = rold - num/den : evaluate the body with the current iterate as a symbol
-    assigned = [t.id for s in loop.body if isinstance(s, ast.Assign) for t in s.targets if isinstance(t, ast.Name)]
-    # the carried iterate: a name assigned in the body and read by the loop test
-    test_names = {x.id for x in ast.walk(loop.test) if isinstance(x, ast.Name)}
-    carried = [a for a in assigned if a in test_names]
-    if not carried:
-        raise AnchorError("_getr: iterate")
-    for nm in set(carried):
-        ev.env[nm] = r0
-    ev.run(loop.body)
-    # after one pass: old iterate name holds r0 (copied), the new iterate is an expression r0 - num/den
-    new = None
-    for nm in carried:
-        v = ev.env.get(nm)
-        if v is not None and not is_unknown(v) and not v.equals(r0):
-            new = (nm, v)
-    if new is None:
-        ctx.error("_getr: Newton update", loop, {k: repr(ev.env.get(k)) for k in carried})
+        env[params[2]] = tol
+    ev = Ev(W, env=env, fnode=fn)
+    at = fn.body.index(loop)
+    ev.run(fn.body[:at])
+    carried = sorted(_assigned_names(loop))
+    head = {nm: F.sym(f"{nm}@0") for nm in carried}
+    ev.env.update(head)
+    conds, exits = [], []         # conditions under which the iteration goes on, environments at the points where it stops
+    if isinstance(loop, ast.While) and not (isinstance(loop.test, ast.Constant) and loop.test.value):
+        conds.append(need(ev.ev(loop.test), "loop test"))
+        exits.append(dict(ev.env))
+    for st in loop.body:
+        if isinstance(st, ast.If) and not st.orelse and st.body and isinstance(st.body[-1], ast.Break) and all(isinstance(x, ast.Expr) for x in st.body[:-1]):
+            conds.append(F.fn("not", need(ev.ev(st.test), "break test")))
+            exits.append(dict(ev.env))
+        else:
+            ev.stmt(st)
+    end = ev.env
+    # the carried iterate: the name whose value after one pass is a non-trivial function of its own value before the pass
+    cand = [nm for nm in carried if rat(end.get(nm)) and end[nm].depends_on(f"{nm}@0") and not (end[nm] - head[nm]).is_const()]
+    if len(cand) != 1:
+        ctx.error("_getr: Newton update", loop, {k: _why(end.get(k)) for k in carried})
         return
-    step = r0 - new[1]          # = num / den
+    it = cand[0]
+    r0name = f"{it}@0"
+    r0, new = head[it], end[it]
+    counters = {f"{nm}@0" for nm in carried if rat(end.get(nm)) and (end[nm] - head[nm]).is_const()}
+    # a step that is clipped / limited
+    bounds = []
+    while True:
+        u = unfn(new)
+        if not (u and u[0] in ("clip", "min", "max")):
+            break
+        inner = [a for a in u[1] if isinstance(a, F.Rat) and a.depends_on(r0name)]
+        if len(inner) != 1:
+            break
+        bounds += [a for a in u[1] if a is not inner[0] and isinstance(a, F.Rat) and symname(a) != "None" and not a.is_const()]
+        new = inner[0]
+    step = r0 - new          # = num / den
     if len(phis) < 2:
         ctx.fail("_getr: the residual evaluates the normal distribution function at both integration limits", loop, len(phis))
         return
     # residual: the numerator of the step, as a combination of the Phi symbols
-    num = step.n
-    den = step.d
-    numr = F.Rat(num)
-    denr = F.Rat(den)
+    numr, denr = F.Rat(step.n), F.Rat(step.d)
     # normalise sign/scale: residual g = sum a_k Phi_k - prob * s ; find scale so that coefficient of prob is -1
     cprob = numr.diff("prob")
     if cprob.is_zero():
@@ -204,7 +187,7 @@ def r2_getr(ctx):
     got = []
     rest = g + prob
     for s, u in phis:
-        cf = g.diff(repr_sym(s))
+        cf = g.diff(symname(s))
         if not cf.is_zero():
             got.append((u, cf))
             rest = rest - cf * s
@@ -215,394 +198,385 @@ def r2_getr(ctx):
     # derivative: d/dr sum cf Phi(u) = sum cf phi(u) du/dr, phi(x) = exp(-x^2/2)/sqrt(2 pi)
     dg = F.const(0)
     for u, cf in got:
-        dg = dg + cf * F.exp(-(u * u) / 2) / F.sqrt(2 * F.sym("pi")) * u.diff("r")
+        dg = dg + cf * F.exp(-(u * u) / 2) / F.sqrt(2 * F.sym("pi")) * u.diff(r0name)
     ok = gp.equals(dg)
     ctx.check(ok, "_getr: the Newton denominator is the derivative of the residual with respect to r (Leibniz: phi(1/sqrt(n) + r) + phi(1/sqrt(n) - r), "
                   "phi the standard normal density)", loop, None if ok else {"code": repr(gp), "derivative": repr(dg)})
-    # loop continues while the last change exceeds tol, and the function returns the iterate
-    t = loop.test
-    tolname = params[2] if len(params) > 2 else "tol"
-    cmps = [x for x in ast.walk(t) if isinstance(x, ast.Compare) and len(x.ops) == 1 and tolname in {y.id for y in ast.walk(x) if isinstance(y, ast.Name)}]
-    ok = False
-    why = ast.unparse(t)
-    if len(cmps) == 1:
-        cm = cmps[0]
-        lhs, op, rhs = cm.left, cm.ops[0], cm.comparators[0]
-        if isinstance(rhs, ast.Call) or (isinstance(lhs, ast.Name) and lhs.id == tolname):      # tol < |..|
-            lhs, rhs = rhs, lhs
-            op = {ast.Lt: ast.Gt, ast.LtE: ast.GtE, ast.Gt: ast.Lt, ast.GtE: ast.LtE}.get(type(op), type(op))()
-        e4 = Evaluator(env={carried[0]: F.sym("r_new"), **{k: F.sym("r_old") for k in carried[1:]}}, src=ctx.src, call=lib_call(tab))
-        # the two iterates: the name assigned the update and the name holding the previous value
-        e4.env = {new[0]: F.sym("r_new")}
-        for nm in carried:
-            if nm != new[0]:
-                e4.env[nm] = F.sym("r_old")
-        dv = e4.ev(lhs)
-        diff = F.fn("abs", F.sym("r_new") - F.sym("r_old"))
-        diff2 = F.fn("abs", F.sym("r_old") - F.sym("r_new"))
-        ok = isinstance(op, (ast.Gt, ast.GtE)) and isinstance(rhs, ast.Name) and rhs.id == tolname and not is_unknown(dv) \
-            and (dv.equals(diff) or dv.equals(diff2))
-        # an array-valued iterate must continue while ANY element is still moving
-        par = None
-        for x in ast.walk(t):
-            if isinstance(x, ast.Call) and any(y is cm for a in x.args for y in ast.walk(a)):
-                par = x
-        if par is not None:
-            d = resolve(dotted(par.func), tab) or ""
-            if d.endswith("all"):
-                ok = False
-                why = "np.all: the iteration would stop as soon as one element of a broadcast input has converged"
+    # the iteration stops at fixed points of the update; a limited update has the limits as additional fixed points unless they bracket the root
+    ok = not bounds
+    ctx.check(ok, "_getr: the update is the Newton step itself - the iterate is not confined to limits whose bracketing of the root (sign of the residual "
+                  "there) is never established", loop,
+              None if ok else {"limits": [repr(b) for b in bounds], "why": "when the root lies beyond a limit the iteration stalls there: |r - r_old| = 0 "
+                               "ends the loop and a value that does not solve the coverage equation is returned"})
+    # loop continues while the last change exceeds tol: the condition under which the next pass is made must follow from |r_new - r_old| > tol
+    # for ANY element (iteration caps aside)
+    shift = {f"{nm}@0": end[nm] for nm in carried if rat(end.get(nm))}
+    delta = new - r0 if not bounds else end[it] - r0
+
+    def is_move(a):
+        ua = unfn(a)
+        if not (ua and ua[0] == "abs" and len(ua[1]) == 1):
+            return False
+        d = ua[1][0]
+        for dd in (d, d.subs(shift)):
+            if same(dd, delta) or same(dd, -delta):
+                return True
+        return False
+
+    def is_tol(b):
+        if not rat(b) or b.is_zero():
+            return False
+        k = b / tol
+        return k.is_const() and 0 < k.const_value() <= 1
+
+    def grade(t):
+        if t[0] == "cmp":
+            _, op, a, b = t
+            if op in ("Gt", "GtE") and is_move(a) and is_tol(b):
+                return "moving"
+            if op in ("Lt", "LtE") and is_move(b) and is_tol(a):
+                return "moving"
+            return "cap" if (symbols(a) | symbols(b)) <= counters and not opaque_calls(a) and not opaque_calls(b) else "other"
+        if t[0] == "any":
+            return grade(t[1])
+        if t[0] == "all":
+            k = grade(t[1])
+            return "all" if k == "moving" else k
+        if t[0] == "and":
+            ks = [grade(x) for x in t[1]]
+            for k in ("all", "other", "moving"):
+                if k in ks:
+                    return k
+            return "cap"
+        if t[0] == "or":
+            ks = [grade(x) for x in t[1]]
+            if "moving" in ks:
+                return "moving"
+            return "cap" if all(k == "cap" for k in ks) else ("all" if "all" in ks else "other")
+        return "cap" if rat(t[1]) and symbols(t[1]) <= counters and not opaque_calls(t[1]) else "other"
+
+    grades = [grade(_nnf(c_)) for c_ in conds]
+    ok = "moving" in grades and all(k in ("moving", "cap") for k in grades)
+    why = None
+    if not ok:
+        why = "np.all: the iteration would stop as soon as one element of a broadcast input has converged" if "all" in grades else \
+            {"goes on while": [repr(c_) for c_ in conds]}
     ctx.check(ok, "_getr: iteration continues while |r - r_old| exceeds the tolerance (for any element of an array-valued input)", loop, why)
-    rets = [s for s in fn.body if isinstance(s, ast.Return)]
-    ok = len(rets) == 1 and isinstance(rets[0].value, ast.Name) and rets[0].value.id == new[0]
-    ctx.check(ok, "_getr: returns the converged iterate", rets[0] if rets else fn)
+    # every way out of the function returns the iterate as it is where the loop is left
+    ok, where = bool(exits), fn
+    for ex in exits:
+        for q in enumerate_paths(W, lambda: _run_stmts(W, fn, fn.body[at + 1:], ex)):
+            if q.ev.raised:
+                continue
+            if not q.ev.returns or not same(q.value, ex[it]):
+                ok, where = False, (q.node if q.ev.returns else fn)
+    ctx.check(ok, "_getr: returns the converged iterate", where)
     doc = ast.get_docstring(fn) or ""
     ok = "1/sqrt(n) + R" in doc and "1/sqrt(n) - R" in doc and "exp(-t^2/2)" in doc
     ctx.check(ok, "_getr: the docstring states the coverage integral with limits 1/sqrt(n) -/+ R", fn, nontrivial=False)
 
 
-def repr_sym(s):
-    """name of a symbol Rat"""
-    (m, c), = s.n.t.items()
-    (a, e), = m
-    return F.atom_desc(a)[1]
+def _run_stmts(W, fn, stmts, env):
+    ev = Ev(W, env=dict(env), fnode=fn)
+    ev.run(stmts)
+    return ev
 
 
+# ---------------------------------------------------------------------------------------------------------------------------------
 def r3_kdouble(ctx):
-    mod = ctx.src.mod(STATS)
-    tab = imports(mod)
     fn = ctx.src.func(STATS, "kdouble")
     getr = ctx.src.func(STATS, "_getr")
-    gp = [a.arg for a in getr.args.args]
+    gp = _sig(getr)
     p, c, n = F.sym("p"), F.sym("c"), F.sym("n")
     seen = []
 
-    def extra(node, ev, d):
-        if d == "_getr":
-            vals = {}
-            for nm, a in zip(gp, node.args):
-                vals[nm] = ev.ev(a)
-            for kw in node.keywords:
-                vals[kw.arg] = ev.ev(kw.value)
-            seen.append((vals, node))
+    def extra(nm, node, ev):
+        if nm == "_getr":
+            pos, kw = ev.args(node)
+            seen.append((place(pos, kw, gp), node))
             return F.sym("R")
         return NotImplemented
 
-    ev = Evaluator(env={"p": p, "c": c, "n": n, "tol": F.sym("tol")}, src=ctx.src, call=lib_call(tab, extra))
-    ev.run(fn.body)
-    v, st = _ret(ev, fn)
-    if is_unknown(v):
-        ctx.error("kdouble: returned expression", st, v.why)
+    W = World(ctx, extra=extra, opaque=("_getr",))
+    paths = _returning(ctx, W, fn, {"p": p, "c": c, "n": n, "tol": F.sym("tol")}, "kdouble")
+    bad = [q for q in paths if not rat(q.value)]
+    if bad:
+        ctx.error("kdouble: returned expression", bad[0].node, _why(bad[0].value))
         return
     want = F.sqrt((n - 1) / F.fn("chi2.ppf", 1 - c, n - 1)) * F.sym("R")
-    ok = v.equals(want) or (v * v).equals(want * want)
-    ctx.check(ok, "kdouble: k = r * sqrt((n - 1) / chi2_{1-c}(n - 1)): the coverage root scaled by the (1 - c)-quantile of chi-square with n - 1 degrees of freedom",
-              st, None if ok else {"code": repr(v), "definition": repr(want)})
-    ok = len(seen) == 1 and not is_unknown(seen[0][0].get(gp[0])) and seen[0][0][gp[0]].equals(n) and seen[0][0][gp[1]].equals(p)
+    wrong = [q for q in paths if not (same(q.value, want) or same(q.value * q.value, want * want))]
+    ctx.check(not wrong, "kdouble: k = r * sqrt((n - 1) / chi2_{1-c}(n - 1)): the coverage root scaled by the (1 - c)-quantile of chi-square with n - 1 degrees of freedom",
+              (wrong or paths)[0].node, None if not wrong else {"code": repr(wrong[0].value), "definition": repr(want)})
+    ok = bool(seen) and len({id(s[1]) for s in seen}) == 1 and all(same(s[0].get(gp[0]), n) and same(s[0].get(gp[1]), p) for s in seen)
     ctx.check(ok, "kdouble: the coverage root is computed for (n, p) - sample size and coverage in the positions _getr declares", seen[0][1] if seen else fn,
-              None if ok else [{k: repr(x) for k, x in s[0].items()} for s in seen])
-    ok = [q.arg for q in fn.args.args][:3] == ["p", "c", "n"]
+              None if ok else [{k: _why(x) for k, x in s[0].items()} for s in seen[:2]])
+    ok = _sig(fn)[:3] == ["p", "c", "n"]
     ctx.check(ok, "kdouble(p, c, n): coverage, confidence, sample size in the documented order", fn)
 
 
-def _arms(fn):
-    """which == 'x' arms of order_stats -> {letter: body}"""
+# ---------------------------------------------------------------------------------------------------------------------------------
+def _which_oracle(name, letter):
+    def base(test, ev):
+        if isinstance(test, ast.Compare) and len(test.ops) == 1:
+            a, b = test.left, test.comparators[0]
+            if isinstance(test.ops[0], ast.Eq):
+                for x, y in ((a, b), (b, a)):
+                    if isinstance(x, ast.Name) and x.id == name and x.id not in ev.env and isinstance(y, ast.Constant) and isinstance(y.value, str):
+                        return y.value == letter
+            if isinstance(test.ops[0], ast.In) and isinstance(a, ast.Name) and a.id == name and a.id not in ev.env \
+                    and isinstance(b, (ast.Tuple, ast.List, ast.Set)) and all(isinstance(e, ast.Constant) for e in b.elts):
+                return letter in [e.value for e in b.elts]
+        return None
+    return base
+
+
+P, C, N, R = F.sym("p"), F.sym("c"), F.sym("n"), F.sym("r")
+ARM_ENV = {"p": P, "c": C, "n": N, "r": R}
+
+
+def _order_stats(ctx):
+    """order_stats evaluated once per value of `which`: every path through the tests the dispatch leaves open"""
+    cached = getattr(ctx, "_c20_order_stats", None)
+    if cached is not None:
+        return cached
+    W = World(ctx)
+    fn = ctx.src.func(STATS, "order_stats")
+    sig = _sig(fn)
+    which = sig[0] if sig else "which"
     arms = {}
-
-    def visit(stmts):
-        for st in stmts:
-            if isinstance(st, ast.If):
-                t = st.test
-                if isinstance(t, ast.Compare) and len(t.ops) == 1 and isinstance(t.ops[0], ast.Eq) and isinstance(t.left, ast.Name) \
-                        and t.left.id == "which" and isinstance(t.comparators[0], ast.Constant):
-                    arms[t.comparators[0].value] = st.body
-                    visit(st.orelse)
-
-    visit(fn.body)
-    return arms
+    for letter in ("c", "n", "p", "r"):
+        W.arm = letter
+        W.base = _which_oracle(which, letter)
+        arms[letter] = enumerate_paths(W, lambda: _run(W, fn, ARM_ENV))
+    W.base = None
+    ctx._c20_order_stats = (W, fn, which, arms)
+    return ctx._c20_order_stats
 
 
-def _comprehension_call(body, target):
-    """`X.flat = [f(args) for (a, b, c) in bc]` with `bc = np.broadcast(x, y, z)`  ->  (call node, {loop var: broadcast operand})"""
-    bc = {}
-    for st in body:
-        if isinstance(st, ast.Assign) and isinstance(st.value, ast.Call) and (dotted(st.value.func) or "").endswith("broadcast"):
-            bc[st.targets[0].id] = [ast.unparse(a) for a in st.value.args]
-    for st in body:
-        if isinstance(st, ast.Assign) and isinstance(st.value, ast.ListComp) and len(st.value.generators) == 1:
-            g = st.value.generators[0]
-            if isinstance(g.iter, ast.Name) and g.iter.id in bc and isinstance(g.target, ast.Tuple):
-                names = [e.id for e in g.target.elts]
-                return st.value.elt, dict(zip(names, bc[g.iter.id])), st
-    return None, None, None
+def _calls_of(paths):
+    """distinct brentq call sites met on these paths (first record with a usable residual per site)"""
+    out = {}
+    for q in paths:
+        for rec in q.brentq:
+            k = id(rec["node"])
+            if k not in out or (not rat(out[k]["g"]) and rat(rec["g"])):
+                out[k] = rec
+    return sorted(out.values(), key=lambda r_: (r_["node"].lineno, r_["node"].col_offset))
+
+
+# scipy.optimize.brentq defaults
+XTOL, RTOL = Fraction("2e-12"), Fraction("8.881784197001252e-16")
 
 
 def r4_order_stats(ctx):
-    mod = ctx.src.mod(STATS)
-    tab = imports(mod)
-    fn = ctx.src.func(STATS, "order_stats")
-    arms = _arms(fn)
-    ok = set(arms) == {"p", "c", "n", "r"}
-    ctx.check(ok, "order_stats: one arm for each of p, c, n, r", fn, sorted(arms))
+    W, fn, which, arms = _order_stats(ctx)
+    ok = all(any(q.returns for q in arms[k]) for k in arms)
+    ctx.check(ok, "order_stats: one arm for each of p, c, n, r", fn, sorted(k for k in arms if any(q.returns for q in arms[k])))
     if not ok:
         return
-    P, C, N, R = F.sym("p"), F.sym("c"), F.sym("n"), F.sym("r")
-    base = {"p": P, "c": C, "n": N, "r": R}
+    ret = {k: [q for q in arms[k] if q.returns] for k in arms}
     relation = F.fn("binom.cdf", R - 1, N, 1 - P)     # P(at most r - 1 of n samples exceed the p-quantile)
 
     # ---- c arm: direct
-    ev = Evaluator(env=dict(base), src=ctx.src, call=lib_call(tab))
-    ev.run(arms["c"])
-    v, st = _ret(ev, fn)
-    ok = (not is_unknown(v)) and v.equals(1 - relation)
-    ctx.check(ok, "order_stats('c'): c = P(X >= r) = 1 - cdf(r - 1; n, 1 - p), X ~ Binomial(n, 1 - p) the number of samples above the p-quantile", st,
-              None if ok else repr(v))
-
-    def local_funcs(body):
-        return {s.name: s for s in body if isinstance(s, ast.FunctionDef)}
+    bad = [q for q in ret["c"] if not (rat(q.value) and same(peel(q.value)[1], 1 - relation) and set(peel(q.value)[0]) <= {"each"})]
+    ctx.check(not bad, "order_stats('c'): c = P(X >= r) = 1 - cdf(r - 1; n, 1 - p), X ~ Binomial(n, 1 - p) the number of samples above the p-quantile",
+              (bad or ret["c"])[0].node, None if not bad else _why(bad[0].value))
 
     def root_arm(letter, unknown_sym, text):
-        """arms solved by brentq: residual(x, *args) must be  (1 - c) - cdf(r - 1; n, 1 - p)  with x the unknown"""
-        body = arms[letter]
-        lf = local_funcs(body)
-        elt, loopvars, st = _comprehension_call(body, None)
-        if elt is None:
-            ctx.error(f"order_stats('{letter}'): broadcast comprehension", fn)
-            return None
-        # find the brentq call: either directly in the comprehension or inside a local helper called from it
-        env = {k: base[v] for k, v in loopvars.items() if v in base}
-        if len(env) != len(loopvars):
-            ctx.error(f"order_stats('{letter}'): broadcast operands", st, loopvars)
-            return None
-        outer_scale = None   # result = outer(brentq(...))
-        call = elt
-
-        def find_brentq(node):
-            for x in ast.walk(node):
-                if isinstance(x, ast.Call) and resolve(dotted(x.func), tab) == "scipy.optimize.brentq":
-                    return x
-            return None
-
-        bq = find_brentq(call)
-        helper_env = env
-        if bq is None:
-            # helper(c, r, p) -> ... brentq(...)
-            inner = [x for x in ast.walk(call) if isinstance(x, ast.Call) and isinstance(x.func, ast.Name) and x.func.id in lf]
-            if len(inner) != 1:
-                ctx.error(f"order_stats('{letter}'): root finder call", st, ast.unparse(elt))
+        """arms solved by brentq: the residual handed to the root finder must be  (1 - c) - cdf(r - 1; n, 1 - p)  with the result as the unknown"""
+        paths = ret[letter]
+        for q in paths:
+            if not rat(q.value):
+                ctx.error(f"order_stats('{letter}'): returned value", q.node, _why(q.value))
                 return None
-            h = lf[inner[0].func.id]
-            e0 = Evaluator(env=dict(env), src=ctx.src, call=lib_call(tab))
-            helper_env = {a.arg: e0.ev(x) for a, x in zip(h.args.args, inner[0].args)}
-            rets = [s for s in walk_no_nested(h) if isinstance(s, ast.Return)]
-            with_bq = [s for s in rets if s.value is not None and find_brentq(s.value) is not None]
-            if len(with_bq) != 1:
-                ctx.error(f"order_stats('{letter}'): brentq in helper", h)
+        calls = _calls_of(arms[letter])
+        if len(calls) != 1:
+            ctx.error(f"order_stats('{letter}'): root finder call", fn, [ast.unparse(r_["node"]) for r_ in calls])
+            return None
+        rec = calls[0]
+        g, xn = rec["g"], rec["Xname"]
+        if not rat(g):
+            ctx.error(f"order_stats('{letter}'): residual", rec["node"], _why(g))
+            return None
+        rooted = [q for q in paths if xn in symbols(q.value)]
+        early = [q for q in paths if xn not in symbols(q.value)]
+        if not rooted:
+            ctx.error(f"order_stats('{letter}'): the root does not reach the result", rec["node"])
+            return None
+        inv = None        # the root as a function of the returned quantity
+        for q in rooted:
+            names, core = peel(q.value)
+            if same(core, rec["X"]):
+                k = unknown_sym
+            elif same(core, 1 - rec["X"]):
+                k = 1 - unknown_sym
+            else:
+                ctx.error(f"order_stats('{letter}'): result is not the root or its complement", q.node, repr(q.value))
                 return None
-            bq = find_brentq(with_bq[0].value)
-            result_expr = with_bq[0].value
-            # any other exit returns a point at which the residual has just been found non-negative (the answer is already met there)
-            for s_ in rets:
-                if s_ is with_bq[0]:
-                    continue
-                from .e1_srcmodel import ancestors
-                guard = next((a for a in ancestors(s_) if isinstance(a, ast.If)), None)
-                ok = guard is not None and isinstance(s_.value, ast.Name) and any(
-                    isinstance(x, ast.Call) and isinstance(x.func, ast.Name) and x.func.id in lf and x.args and isinstance(x.args[0], ast.Name)
-                    and x.args[0].id == s_.value.id for x in ast.walk(guard.test)) and any(
-                    isinstance(x, ast.Compare) and isinstance(x.ops[0], (ast.GtE, ast.Gt)) for x in ast.walk(guard.test))
-                ctx.check(ok, f"order_stats('{letter}'): the early exit returns the point whose residual was just tested non-negative", s_, ast.unparse(s_))
-        else:
-            result_expr = elt
-        # residual function and its extra args
-        if not (isinstance(bq.args[0], ast.Name) and bq.args[0].id in lf):
-            ctx.error(f"order_stats('{letter}'): residual function", bq, ast.unparse(bq))
-            return None
-        res = lf[bq.args[0].id]
-        argt = None
-        for kw in bq.keywords:
-            if kw.arg == "args":
-                argt = kw.value
-        if argt is None and len(bq.args) >= 4:
-            argt = bq.args[3]
-        if not isinstance(argt, ast.Tuple):
-            ctx.error(f"order_stats('{letter}'): brentq args", bq)
-            return None
-        e1 = Evaluator(env=dict(helper_env), src=ctx.src, call=lib_call(tab))
-        argv = [e1.ev(a) for a in argt.elts]
-        rp = [a.arg for a in res.args.args]
-        if len(rp) != 1 + len(argv):
-            ctx.fail(f"order_stats('{letter}'): residual takes the unknown plus {len(argv)} parameters", res, rp)
-            return None
-        X = F.sym("X")
-        e2 = Evaluator(env=dict(zip(rp, [X] + argv)), src=ctx.src, call=lib_call(tab))
-        e2.run(res.body)
-        g, rst = _ret(e2, res)
-        if is_unknown(g):
-            ctx.error(f"order_stats('{letter}'): residual", rst, g.why)
-            return None
-        # result = outer(root): evaluate result_expr with brentq(...) := X
-        def extra(node, ev, d):
-            if node is bq:
-                return X
-            return NotImplemented
-        e3 = Evaluator(env=dict(helper_env), src=ctx.src, call=lib_call(tab, extra))
-        outv = e3.ev(result_expr)
-        if is_unknown(outv):
-            ctx.error(f"order_stats('{letter}'): result expression", st, outv.why)
-            return None
-        # unknown_sym = outv(X)  =>  substitute X := inverse; outv is X or 1 - X
-        if outv.equals(X):
-            xs = unknown_sym
-        elif outv.equals(1 - X):
-            xs = 1 - unknown_sym
-        else:
-            ctx.error(f"order_stats('{letter}'): result is not the root or its complement", st, repr(outv))
-            return None
-        g2 = g.subs({"X": xs})
+            if inv is not None and not same(inv, k):
+                ctx.error(f"order_stats('{letter}'): paths disagree on the result", q.node, repr(q.value))
+                return None
+            inv = k
+        g2 = g.subs({xn: inv})
         want = (1 - C) - relation
-        ok = g2.equals(want) or g2.equals(-want)
-        ctx.check(ok, f"order_stats('{letter}'): {text} solves (1 - c) = cdf(r - 1; n, 1 - p) - the same relation as the 'c' arm", rst,
-                  None if ok else {"residual": repr(g2), "relation": repr(want)})
-        return bq, st, body
+        sigma = 1 if same(g2, want) else (-1 if same(g2, -want) else 0)
+        ctx.check(sigma != 0, f"order_stats('{letter}'): {text} solves (1 - c) = cdf(r - 1; n, 1 - p) - the same relation as the 'c' arm", rec["node"],
+                  None if sigma else {"residual": repr(g2), "relation": repr(want)})
+        # any other exit returns a point at which the residual has just been found non-negative (the answer is already met there)
+        for q in early:
+            names, v = peel(q.value)
+            try:
+                gv = g.subs({xn: inv.subs({_name(unknown_sym): v})})
+            except Unsupported:
+                gv = None
+            ok = False
+            for val, tv, _node in q.decisions:
+                if gv is None or not rat(tv) or not sigma:
+                    continue
+                alts = literals(tv, val)
+                hit = []
+                for alt in alts:
+                    h = False
+                    for lit in alt:
+                        if lit[0] != "rel":
+                            continue
+                        s_ = 1 if same(lit[1], gv) else (-1 if same(lit[1], -gv) else 0)
+                        if s_ and (lit[2] if s_ * sigma > 0 else flip(lit[2])) == "ge0":
+                            h = True
+                    hit.append(h)
+                if hit and all(hit):
+                    ok = True
+            ctx.check(ok, f"order_stats('{letter}'): the early exit returns the point whose residual was just tested non-negative", q.node, repr(q.value))
+        return rec, rooted
 
     rn = root_arm("n", N, "the sample size")
-    rp_ = root_arm("p", P, "the coverage")
-    # ---- n arm: rounding up
+    root_arm("p", P, "the coverage")
+    # ---- n arm: rounding up, at the root finder's full precision
     if rn:
-        body = arms["n"]
-        rets = [s for s in body if isinstance(s, ast.Return)]
-        ok = len(rets) == 1 and isinstance(rets[0].value, ast.Call) and "ceil(" in ast.unparse(rets[0].value) and "floor" not in ast.unparse(rets[0].value) \
-            and "round" not in ast.unparse(rets[0].value)
+        rec, rooted = rn
+        ok = all("ceil" in peel(q.value)[0] and set(peel(q.value)[0]) <= {"ceil", "int", "each"} for q in rooted)
         ctx.check(ok, "order_stats('n'): the real root is rounded UP (smallest integer sample size meeting the confidence; the confidence increases with n)",
-                  rets[0] if rets else fn)
+                  rooted[0].node, None if ok else [repr(q.value) for q in rooted])
+        loose = {}
+        for k, dflt in (("xtol", XTOL), ("rtol", RTOL)):
+            v = rec["vals"].get(k)
+            if v is None:
+                continue
+            cv = const_value(v)
+            if cv is None:
+                ctx.error(f"order_stats('n'): brentq {k}", rec["node"], _why(v))
+            elif cv > dflt:
+                loose[k] = float(cv)
+        ctx.check(not loose, "order_stats('n'): the root that is rounded up to a whole sample size is computed to the root finder's default precision or better "
+                             "(a root known only to within a visible fraction of a sample is rounded to the wrong integer whenever it lies that close to one)",
+                  rec["node"], loose or None)
     # ---- r arm: generalised inverse of the same cdf in the count argument
-    body = arms["r"]
-    elt, loopvars, st = _comprehension_call(body, None)
-    if elt is None:
-        ctx.error("order_stats('r'): broadcast comprehension", fn)
-        return
-    env = {k: base[v] for k, v in loopvars.items() if v in base}
-    ev = Evaluator(env=env, src=ctx.src, call=lib_call(tab))
-    v = ev.ev(elt)
     want = F.fn("binom.ppf", 1 - C, N, 1 - P)
-    ok = (not is_unknown(v)) and v.equals(want)
-    ctx.check(ok, "order_stats('r'): r = ppf(1 - c; n, 1 - p) = the smallest k with cdf(k) >= 1 - c, i.e. confidence(r) = 1 - cdf(r - 1) > c >= confidence(r + 1): "
-                  "the largest rank that still meets the confidence under the 'c' arm's relation", st, None if ok else repr(v))
-    rets = [s for s in ast.walk(ast.Module(body=body, type_ignores=[])) if isinstance(s, ast.Return)]
-    ok = bool(rets) and all("int" in ast.unparse(r.value) for r in rets) and not any(isinstance(x, ast.BinOp) for r in rets for x in ast.walk(r.value))
-    ctx.check(ok, "order_stats('r'): the quantile is returned as an integer without offset", rets[0] if rets else fn)
+    bad = [q for q in ret["r"] if not rat(q.value)]
+    if bad:
+        ctx.error("order_stats('r'): returned value", bad[0].node, _why(bad[0].value))
+        return
+    wrong = [q for q in ret["r"] if not (len(fn_atoms(q.value, "binom.ppf")) == 1 and same(F.fn("binom.ppf", *fn_atoms(q.value, "binom.ppf")[0]), want))]
+    ctx.check(not wrong, "order_stats('r'): r = ppf(1 - c; n, 1 - p) = the smallest k with cdf(k) >= 1 - c, i.e. confidence(r) = 1 - cdf(r - 1) > c >= confidence(r + 1): "
+                         "the largest rank that still meets the confidence under the 'c' arm's relation", (wrong or ret["r"])[0].node,
+              None if not wrong else repr(wrong[0].value))
+    wrong = [q for q in ret["r"] if not ("int" in peel(q.value)[0] and set(peel(q.value)[0]) <= {"int", "each"} and same(peel(q.value)[1], want))]
+    ctx.check(not wrong, "order_stats('r'): the quantile is returned as an integer without offset", (wrong or ret["r"])[0].node,
+              None if not wrong else repr(wrong[0].value))
 
 
+def _name(s):
+    return symname(s)
+
+
+# ---------------------------------------------------------------------------------------------------------------------------------
 def r5_brackets(ctx):
     """scipy.optimize.brentq(f, a, b) needs f(a) and f(b) of opposite sign.  Every bracket end must therefore be *established*: a literal end of the
-    unknown's whole domain, or a variable whose residual sign was tested on every path that defines it."""
-    mod = ctx.src.mod(STATS)
-    tab = imports(mod)
-    fn = ctx.src.func(STATS, "order_stats")
-    n_calls = 0
-    for holder in [fn] + [x for x in ast.walk(fn) if isinstance(x, ast.FunctionDef) and x is not fn]:
-        for call in walk_no_nested(holder):
-            if not (isinstance(call, ast.Call) and resolve(dotted(call.func), tab) == "scipy.optimize.brentq"):
+    unknown's whole domain, or a value at which the sign of the residual was tested on every path that reaches the call."""
+    W, fn, which, arms = _order_stats(ctx)
+    calls = _calls_of([q for k in sorted(arms) for q in arms[k]])
+    for rec in calls:
+        call = rec["node"]
+        ends = [("lower", rec["a"], 0), ("upper", rec["b"], 1)]
+        if any(v is None for _, v, _ in ends):
+            ctx.error("brentq call shape", call, ast.unparse(call))
+            continue
+        variable = [e for e in ends if const_value(e[1]) is None]
+        for w, v, dom in ends:
+            if const_value(v) is not None:
+                ctx.check(const_value(v) == dom, f"order_stats: literal {w} bracket end is the end of the probability domain (0, 1)", call, float(const_value(v)))
+        if not variable:
+            continue
+        if not rat(rec["g"]):
+            ctx.error("order_stats: residual handed to brentq", call, _why(rec["g"]))
+            continue
+        holder = rec["ev"].fnode
+        if holder is None:
+            ctx.error("order_stats: function holding the brentq call", call)
+            continue
+        W.base = _which_oracle(which, rec["arm"])
+        try:
+            B = Bracket(W, rec, holder, rec["ev"].entry_env).run()
+        finally:
+            W.base = None
+        # every other evaluation of the residual in this scope passes the same parameters as the root finder
+        for cn, res, x0 in sorted(B.probes.values(), key=lambda t: (t[0].lineno, t[0].col_offset)):
+            ok = rat(res) and rat(x0) and same(res, B.at(x0))
+            ctx.check(ok, f"order_stats: bracket probe `{ast.unparse(cn.func)}(...)` uses the parameters the root finder is given", cn,
+                      None if ok else {"probe": _why(res), "brentq residual there": repr(B.at(x0)) if rat(x0) else None})
+        if not B.observed:
+            ctx.error("order_stats: brentq call not reached by the abstract execution", call)
+            continue
+        st, av, bv, an, bn = B.observed[-1]
+        est = {}
+        for w, v, node in (("lower", av, an), ("upper", bv, bn)):
+            if const_value(v) is not None:
                 continue
-            n_calls += 1
-            if len(call.args) < 3 or not isinstance(call.args[0], ast.Name):
-                ctx.error("brentq call shape", call, ast.unparse(call))
-                continue
-            fname = call.args[0].id
-            argt = next((kw.value for kw in call.keywords if kw.arg == "args"), call.args[3] if len(call.args) > 3 else None)
-            extra = [ast.unparse(e) for e in argt.elts] if isinstance(argt, ast.Tuple) else []
-            # every other evaluation of the residual in this scope passes the same parameters as the root finder
-            for probe in walk_no_nested(holder):
-                if isinstance(probe, ast.Call) and isinstance(probe.func, ast.Name) and probe.func.id == fname and probe is not call:
-                    got = [ast.unparse(e) for e in probe.args[1:]]
-                    ok = got == extra
-                    ctx.check(ok, f"order_stats: bracket probe `{fname}(...)` uses the parameters the root finder is given", probe,
-                              None if ok else {"probe": got, "brentq args": extra})
-            for end, which in ((call.args[1], "lower"), (call.args[2], "upper")):
-                if isinstance(end, ast.Constant):
-                    ok = (which, end.value) in (("lower", 0), ("upper", 1))
-                    ctx.check(ok, f"order_stats: literal {which} bracket end is the end of the probability domain (0, 1)", call, end.value)
-                    continue
-                if not isinstance(end, ast.Name):
-                    ctx.error(f"{which} bracket end", call, ast.unparse(end))
-                    continue
-                defs = [st for st in walk_no_nested(holder) if isinstance(st, ast.Assign) and any(isinstance(t, ast.Name) and t.id == end.id for t in st.targets)]
-                for d in defs:
-                    ok, how = _sign_established(holder, d, end.id, fname, extra, call)
-                    ctx.check(ok, f"order_stats: {which} bracket end `{end.id}` defined by `{ast.unparse(d)}` has the sign of its residual tested before "
-                                  f"the root finder is called ({how})" if ok else
-                              f"order_stats: {which} bracket end `{end.id}` defined by `{ast.unparse(d)}` reaches brentq without any test of the residual's sign there",
-                              d, None if ok else "brentq raises ValueError when f(a) and f(b) have the same sign: e.g. when `r` samples already meet the "
-                                                 "requested confidence (f(r) >= 0), order_stats('n', ...) fails instead of returning r",
-                              key=f"C20-R5|order_stats|{which} end {end.id} = {ast.unparse(d.value)} untested")
-    ctx.check(n_calls >= 2, "order_stats: two root-finder calls (sample size, coverage)", fn, n_calls, nontrivial=False)
-
-
-def _sign_established(holder, d, name, fname, extra, call):
-    """is the sign of fname(name, *extra) tested for this definition of `name` before `call`?"""
-    from .e1_srcmodel import ancestors
-
-    def is_probe(x, of):
-        return isinstance(x, ast.Call) and isinstance(x.func, ast.Name) and x.func.id == fname and x.args and isinstance(x.args[0], ast.Name) \
-            and x.args[0].id in of and [ast.unparse(e) for e in x.args[1:]] == extra
-
-    def has_sign_test(test, of):
-        for c in ast.walk(test):
-            if isinstance(c, ast.Compare) and len(c.ops) == 1 and isinstance(c.ops[0], (ast.Lt, ast.LtE, ast.Gt, ast.GtE)):
-                sides = [c.left, c.comparators[0]]
-                if any(is_probe(s, of) for s in sides) and any(isinstance(s, ast.Constant) and s.value == 0 for s in sides):
-                    return True
-        return False
-
-    src = {name}
-    if isinstance(d.value, ast.Name):
-        src.add(d.value.id)
-    # (i) the definition sits inside a loop / if whose test probes the residual at the value being copied
-    for a in ancestors(d):
-        if a is holder:
-            break
-        if isinstance(a, (ast.While, ast.If)) and has_sign_test(a.test, src - {name} or src):
-            return True, "copied from a point whose residual the enclosing test has just probed"
-    # (ii) a later test at the same nesting level probes the residual at this name before the call
-    body = None
-    for a in [holder] + list(ast.walk(holder)):
-        for fld in ("body", "orelse"):
-            b = getattr(a, fld, None)
-            if isinstance(b, list) and d in b:
-                body = b
-    if body is None:
-        return False, ""
-    for st in body[body.index(d) + 1:]:
-        if any(x is call for x in ast.walk(st)) and not isinstance(st, (ast.If, ast.While)):
-            break
-        if isinstance(st, ast.If) and has_sign_test(st.test, {name}):
-            return True, "tested by a following `if`"
-        if isinstance(st, ast.While) and has_sign_test(st.test, {name}):
-            # the loop exits only when the test fails (or a counter runs out): the sign at exit is the complement
-            return True, "the search loop exits when the probe changes sign"
-        if isinstance(st, ast.Assign) and any(isinstance(t, ast.Name) and t.id == name for t in st.targets):
-            break
-    return False, ""
+            est[w] = [rel for rel in RELS if st.has(v, rel)]
+            nm = node.id if isinstance(node, ast.Name) else None
+            defs = sorted(st.defs.get(nm, ()), key=lambda d: (d.lineno, d.col_offset)) if nm else []
+            blamed = B.culprits.get(nm, set()) if nm else set()
+            why = ("brentq raises ValueError when f(a) and f(b) have the same sign: e.g. when `r` samples already meet the requested confidence "
+                   "(f(r) >= 0), order_stats('n', ...) fails instead of returning r")
+            if not defs:
+                ok = bool(est[w])
+                ctx.check(ok, f"order_stats: {w} bracket end `{ast.unparse(node)}` has the sign of its residual tested before the root finder is called" if ok
+                          else f"order_stats: {w} bracket end `{ast.unparse(node)}` reaches brentq without any test of the residual's sign there", call,
+                          None if ok else why)
+            for d in defs:
+                ok = bool(est[w]) or (bool(blamed) and d not in blamed)
+                txt = ast.unparse(d)
+                val = ast.unparse(d.value) if isinstance(d, (ast.Assign, ast.AugAssign, ast.AnnAssign)) and d.value is not None else txt
+                ctx.check(ok, f"order_stats: {w} bracket end `{nm}` defined by `{txt}` has the sign of its residual tested before the root finder is called"
+                          if ok else f"order_stats: {w} bracket end `{nm}` defined by `{txt}` reaches brentq without any test of the residual's sign there",
+                          d, None if ok else why, key=f"C20-R5|order_stats|{w} end {nm} = {val} untested")
+        if len(est) == 2 and all(est.values()):
+            ok = ("le0" in est["lower"] and "ge0" in est["upper"]) or ("ge0" in est["lower"] and "le0" in est["upper"])
+            ctx.check(ok, "order_stats: the two bracket ends are established with opposite signs of the residual", call, None if ok else est)
+    ctx.check(len(calls) >= 2, "order_stats: two root-finder calls (sample size, coverage)", fn, len(calls), nontrivial=False)
 
 
 RULES = [
     ("C20-R1", r1_ksingle, 3),
-    ("C20-R2", r2_getr, 5),
+    ("C20-R2", r2_getr, 6),
     ("C20-R3", r3_kdouble, 3),
-    ("C20-R4", r4_order_stats, 6),
-    ("C20-R5", r5_brackets, 6),
+    ("C20-R4", r4_order_stats, 7),
+    ("C20-R5", r5_brackets, 7),
 ]
 LEVEL = "other"
 EXPLANATION = ("Static: the compositions of library quantile / tail functions in stats.ksingle, kdouble, _getr and the four arms of order_stats are extracted "
-               "(imports resolved, temporaries substituted, sf/isf/betainc rewritten to cdf/ppf) and compared with the definitions the property states; the "
-               "Newton denominator is checked to be the derivative of the residual; the four order_stats arms are checked to share one binomial relation.")
+               "as values (imports resolved, temporaries / module constants substituted, helpers, closures and lambdas followed, sf/isf/betainc rewritten to "
+               "cdf/ppf) and compared with the definitions the property states; the Newton denominator is checked to be the derivative of the residual; the "
+               "four order_stats arms are checked to share one binomial relation; every brentq bracket end has the sign of the residual established.")
 MANIFEST = {
     "text": "Thin partial claim decided statically: (R1) ksingle is nct.ppf(c; n-1, sqrt(n) z_p)/sqrt(n); (R2) _getr's Newton residual is the documented coverage "
-            "equation Phi(1/sqrt n + r) - Phi(1/sqrt n - r) = prob and its denominator is the residual's derivative; (R3) kdouble scales that root by "
+            "equation Phi(1/sqrt n + r) - Phi(1/sqrt n - r) = prob, its denominator is the residual's derivative, the step is not confined to unestablished "
+            "limits, the loop goes on while any element moves by more than tol; (R3) kdouble scales that root by "
             "sqrt((n-1)/chi2.ppf(1-c, n-1)) and passes (n, p) in _getr's order; (R4) the c, n, p and r arms of order_stats all express 1 - c = cdf(r - 1; n, 1 - p) "
-            "(sf, betainc and ppf forms rewritten), n is rounded up, r is the integer quantile. Not decided: values of nct/chi2/binom/betainc, convergence of the "
+            "(sf, betainc and ppf forms rewritten), n is rounded up from a root of full precision, r is the integer quantile; (R5) brentq brackets are sign-tested. "
+            "Not decided: values of nct/chi2/binom/betainc, convergence of the "
             "Newton and brentq iterations, monotonicity in p and c, the large-n limit.",
-    "note": "Trusted: CPython ast; verifier/e2_formula.py; the identities sf = 1 - cdf, isf(q) = ppf(1 - q), 1 - I_x(s+1, n-s) = binom.cdf(s; n, x).",
-    "technique": "static extraction of library-call compositions into normal forms and comparison with the defining formulas; symbolic derivative check of the Newton step; sibling agreement of the four order_stats arms",
+    "note": "Trusted: CPython ast; verifier/e2_formula.py; the identities sf = 1 - cdf, isf(q) = ppf(1 - q), 1 - I_x(s+1, n-s) = binom.cdf(s; n, x). "
+            "Iteration caps (loop counters) are not modelled.",
+    "technique": "static extraction of library-call compositions into normal forms and comparison with the defining formulas; symbolic derivative check of the Newton step; sibling agreement of the four order_stats arms; sign-fact abstract execution of the bracket search",
 }
